@@ -137,15 +137,19 @@ def run(ctx):
         opts = [{}, {'keep_attrs': False}, {'keep_attrs': True}, {'arithmetic_join': 'exact'}, {}][(len(lit) + 3 * (pd is False) + (dts is True)) % 5]
         ctx.count(f'xarray options:{opts or "defaults"}')
         case['xarray_options'] = opts
+        # the options may arrive as numpy booleans (the result of comparing two depths) or as 0 / 1
+        spell = [lambda b: b, lambda b: None if b is None else numpy.bool_(b), lambda b: None if b is None else int(b)][(len(lit) + 2 * (pd is True) + (dts is False)) % 3]
+        pd_arg, dts_arg = spell(pd), spell(dts)
+        ctx.count(f'options given as:{type(pd_arg).__name__ if pd is not None else type(dts_arg).__name__}')
         with warnings.catch_warnings(), xarray.set_options(**opts):
             warnings.simplefilter('ignore')
             if via_ems:
-                r = attempt(lambda: ds.ems.normalize_depth_variables(positive_down=pd, deep_to_shallow=dts))
+                r = attempt(lambda: ds.ems.normalize_depth_variables(positive_down=pd_arg, deep_to_shallow=dts_arg))
             else:
                 # the coordinates are documented as an iterable: a list, a tuple, a generator, an iterator
                 arg = [names, tuple(names), (nm for nm in names), iter(names), (ds[nm] for nm in names)][(len(lit) + (pd is True) + 2 * (dts is True)) % 5]
                 ctx.count(f'depth coordinates given as:{type(arg).__name__}')
-                r = attempt(lambda: depth_ops.normalize_depth_variables(ds, arg, positive_down=pd, deep_to_shallow=dts))
+                r = attempt(lambda: depth_ops.normalize_depth_variables(ds, arg, positive_down=pd_arg, deep_to_shallow=dts_arg))
         if r[0] != 'ok':
             ctx.case((lit, pd, dts), False)
             ctx.report('property', f'normalize_depth_variables failed: {r[1]}', case)
